@@ -43,6 +43,15 @@ var trFuncsScan = [][2]string{
 	{"", "isFramesElidedLine"}, {"", "trimLeftSpace"}, {"", "atou"},
 	{"", "hasPrefix"}, {"", "hasSrcPrefix"}, {"", "isRootedIn"},
 	{"Call", "updateLocations"}, {"Stack", "updateLocations"}, {"Signature", "updateLocations"},
+	{"Call", "init"},
+}
+
+// the link builders of the HTML writer (html.go): a third group.  net/url's escaping, html/template's
+// escaper, the two regular expressions and runtime.Version() are the environment (the first three are
+// the hand-written model functions, the last a parameter).
+var trFuncsHtml = [][2]string{
+	{"", "funcClass"}, {"", "splitHost"}, {"", "splitTag"}, {"", "symbol"},
+	{"", "getSrcBranchURL"}, {"", "srcURL"}, {"", "pkgURL"},
 }
 
 func trName(recv, fn string) string {
@@ -107,6 +116,7 @@ func lowerFirst(s string) string {
 type trLocal struct {
 	name string
 	typ  string
+	obj  types.Object // the Go variable this binding stands for (nil for names the translation introduces)
 }
 
 type translator struct {
@@ -128,6 +138,8 @@ type translator struct {
 	// threaded as a local and returned together with the result
 	depth int
 	envSigs  map[string]string
+	submatch map[types.Object]bool // variables holding the result of FindStringSubmatch
+	void     bool // no result: the translation returns the receiver it assigned through
 }
 
 func (t *translator) fail(n ast.Node, f string, a ...interface{}) {
@@ -155,6 +167,9 @@ func (t *translator) leanType(n ast.Node, ty types.Type) string {
 			return "Lvl"
 		case "Location":
 			return "Loc"
+		}
+		if b, ok := x.Underlying().(*types.Basic); ok && b.Info()&types.IsString != 0 {
+			return "Bytes" // template.URL, template.HTML: strings
 		}
 	case *types.Basic:
 		switch {
@@ -307,6 +322,7 @@ func (t *translator) pureExpr(e ast.Expr) string {
 		case "nil":
 			return "[]"
 		}
+		t.checkBinding(x)
 		return lid(x.Name)
 	case *ast.StarExpr:
 		return t.pureExpr(x.X)
@@ -388,18 +404,126 @@ func (t *translator) builtinCall(x *ast.CallExpr, sub func(ast.Expr) string) (st
 			return sub(x.Args[0]), true
 		}
 	}
+	// conversions between string types: template.URL(s), template.HTML(s)
+	if tv, ok := t.p.info.Types[x.Fun]; ok && tv.IsType() && len(x.Args) == 1 {
+		if b, ok := tv.Type.Underlying().(*types.Basic); ok && b.Info()&types.IsString != 0 {
+			if ab, ok := t.typeOf(x.Args[0]).Underlying().(*types.Basic); ok && ab.Info()&types.IsString != 0 {
+				return sub(x.Args[0]), true
+			}
+		}
+	}
 	name := ""
 	switch f := x.Fun.(type) {
 	case *ast.SelectorExpr:
 		if pk, ok := f.X.(*ast.Ident); ok {
-			if _, isPkg := t.p.info.Uses[pk].(*types.PkgName); isPkg {
-				name = pk.Name + "." + f.Sel.Name
+			if pn, isPkg := t.p.info.Uses[pk].(*types.PkgName); isPkg {
+				name = pn.Imported().Name() + "." + f.Sel.Name
+			} else if v, isVar := t.p.info.Uses[pk].(*types.Var); isVar && v.Parent() == t.p.pkg.Scope() && v.Type().String() == "*regexp.Regexp" {
+				// a method of one of the package's compiled regular expressions
+				name = "regexp:" + pk.Name + "." + f.Sel.Name
+			}
+		}
+		if name == "" && f.Sel.Name == "String" && len(x.Args) == 0 {
+			if n, ok := t.typeOf(f.X).(*types.Named); ok && n.Obj().Name() == "Location" {
+				// location_string.go (generated by stringer): the model's Loc.string
+				return fmt.Sprintf("(Loc.string %s)", atom(sub(f.X))), true
 			}
 		}
 	case *ast.Ident:
 		name = f.Name
 	}
+	constStr := func(e ast.Expr) (string, bool) {
+		tv, ok := t.p.info.Types[e]
+		if !ok || tv.Value == nil || tv.Value.Kind() != constant.String {
+			return "", false
+		}
+		return constant.StringVal(tv.Value), true
+	}
 	switch name {
+	case "url.QueryEscape":
+		return fmt.Sprintf("(queryEscape %s)", atom(sub(x.Args[0]))), true
+	case "template.HTMLEscapeString":
+		return fmt.Sprintf("(htmlEscapeString %s)", atom(sub(x.Args[0]))), true
+	case "escape":
+		// html.go: url.URL{Path: s}.EscapedPath(), the model's escape (net/url is modelled by hand)
+		if !t.funcs["escape"] {
+			return fmt.Sprintf("(escape %s)", atom(sub(x.Args[0]))), true
+		}
+	case "runtime.Version":
+		return "E.runtimeVersion", true
+	case "strings.SplitN":
+		sep, ok := constStr(x.Args[1])
+		tv := t.p.info.Types[x.Args[2]]
+		if !ok || len(sep) != 1 || tv.Value == nil {
+			t.fail(x, "strings.SplitN with a separator that is not a one-byte constant, or a count that is not constant")
+		}
+		n, _ := constant.Int64Val(tv.Value)
+		if n <= 0 {
+			t.fail(x, "strings.SplitN with a count that is not positive")
+		}
+		return fmt.Sprintf("(goSplitN %s %d %d)", atom(sub(x.Args[0])), sep[0], n), true
+	case "regexp:reVersion.FindStringSubmatch":
+		return fmt.Sprintf("(reVersionSubmatch %s)", atom(sub(x.Args[0]))), true
+	case "regexp:reMethodSymbol.MatchString":
+		return fmt.Sprintf("(reMethodSymbol %s).isSome", atom(sub(x.Args[0]))), true
+	case "regexp:reMethodSymbol.ReplaceAllString":
+		if repl, ok := constStr(x.Args[1]); !ok || repl != "$1$2" {
+			t.fail(x, "reMethodSymbol.ReplaceAllString with a template other than \"$1$2\"")
+		}
+		return fmt.Sprintf("(reMethodSymbolReplace12 %s)", atom(sub(x.Args[0]))), true
+	case "fmt.Sprintf":
+		f, ok := constStr(x.Args[0])
+		if !ok {
+			t.fail(x, "fmt.Sprintf with a format that is not constant")
+		}
+		var parts []string
+		lit := ""
+		flush := func() {
+			if lit != "" {
+				parts = append(parts, leanBytes(lit))
+				lit = ""
+			}
+		}
+		ai := 1
+		for i := 0; i < len(f); i++ {
+			if f[i] != '%' {
+				lit += string(f[i])
+				continue
+			}
+			i++
+			if i == len(f) {
+				t.fail(x, "fmt.Sprintf: format ends in %%")
+			}
+			if f[i] == '%' {
+				lit += "%"
+				continue
+			}
+			if ai >= len(x.Args) {
+				t.fail(x, "fmt.Sprintf: missing argument")
+			}
+			a := x.Args[ai]
+			ai++
+			ab, _ := t.typeOf(a).Underlying().(*types.Basic)
+			switch {
+			case f[i] == 's' && ab != nil && ab.Info()&types.IsString != 0:
+				flush()
+				parts = append(parts, sub(a))
+			case f[i] == 'd' && ab != nil && ab.Info()&types.IsInteger != 0:
+				// ints of the translated code are natural numbers (line numbers, counts)
+				flush()
+				parts = append(parts, "Bytes.natToDec "+atom(sub(a)))
+			default:
+				t.fail(x, "fmt.Sprintf: verb %%%c with an argument of type %s", f[i], t.typeOf(a))
+			}
+		}
+		if ai != len(x.Args) {
+			t.fail(x, "fmt.Sprintf: extra arguments")
+		}
+		flush()
+		if len(parts) == 0 {
+			return "([] : Bytes)", true
+		}
+		return "(" + strings.Join(parts, " ++ ") + ")", true
 	case "bytes.Equal":
 		return fmt.Sprintf("(%s == %s)", sub(x.Args[0]), sub(x.Args[1])), true
 	case "bytes.HasPrefix", "strings.HasPrefix":
@@ -517,6 +641,11 @@ func (t *translator) bind(e ast.Expr, k func(string) string) string {
 		sn := structName(t.typeOf(x.X))
 		return t.bind(x.X, func(v string) string { return k(fieldGet(sn, v, x.Sel.Name)) })
 	case *ast.IndexExpr:
+		if id, ok := x.X.(*ast.Ident); ok && t.submatch[t.p.info.Uses[id]] {
+			if tv, ok := t.p.info.Types[x.Index]; !ok || tv.Value == nil || tv.Value.ExactString() == "0" {
+				t.fail(x, "the whole match (index 0, or a computed index) of a regular expression is not modelled, only its groups")
+			}
+		}
 		return t.bind(x.X, func(base string) string {
 			return t.bind(x.Index, func(idx string) string {
 				if n, ok := t.typeOf(x.Index).(*types.Named); ok && n.Obj().Name() == "Location" {
@@ -559,7 +688,12 @@ func (t *translator) bind(e ast.Expr, k func(string) string) string {
 				var rec func(i int) string
 				rec = func(i int) string {
 					if i == len(x.Args) {
-						s, _ := t.builtinCall(x, func(e ast.Expr) string { return vals[e] })
+						s, _ := t.builtinCall(x, func(e ast.Expr) string {
+							if v, ok := vals[e]; ok {
+								return v
+							}
+							return t.pureExpr(e)
+						})
 						return k(s)
 					}
 					return t.bind(x.Args[i], func(s string) string { vals[x.Args[i]] = s; return rec(i + 1) })
@@ -715,6 +849,59 @@ func (t *translator) boolM(e ast.Expr) string {
 }
 
 // ---------------------------------------------------------------- statements
+
+// indexCall recognises strings/bytes.Index, IndexByte, LastIndexByte: the searches whose result
+// (-1 when absent) the translation represents as an Option.
+func (t *translator) indexCall(e ast.Expr) (string, *ast.CallExpr, bool) {
+	call, ok := e.(*ast.CallExpr)
+	if !ok || len(call.Args) != 2 {
+		return "", nil, false
+	}
+	sel, ok := call.Fun.(*ast.SelectorExpr)
+	if !ok {
+		return "", nil, false
+	}
+	pk, ok := sel.X.(*ast.Ident)
+	if !ok {
+		return "", nil, false
+	}
+	pn, ok := t.p.info.Uses[pk].(*types.PkgName)
+	if !ok || (pn.Imported().Path() != "strings" && pn.Imported().Path() != "bytes") {
+		return "", nil, false
+	}
+	switch sel.Sel.Name {
+	case "LastIndexByte":
+		return "Bytes.lastIndexByte", call, true
+	case "IndexByte":
+		return "Bytes.indexByte", call, true
+	case "Index":
+		// Bytes.indexOf models a search for a non-empty separator
+		if tv, ok := t.p.info.Types[call.Args[1]]; !ok || tv.Value == nil || tv.Value.Kind() != constant.String || constant.StringVal(tv.Value) == "" {
+			t.fail(e, "Index with a separator that is not a non-empty constant")
+		}
+		return "Bytes.indexOf", call, true
+	}
+	return "", nil, false
+}
+
+func (t *translator) isMinus1(e ast.Expr) bool {
+	tv, ok := t.p.info.Types[e]
+	return ok && tv.Value != nil && tv.Value.ExactString() == "-1"
+}
+
+// usesObj: does any identifier in the statements denote obj?
+func usesObjIn(info *types.Info, list []ast.Stmt, obj types.Object) bool {
+	found := false
+	for _, s := range list {
+		ast.Inspect(s, func(n ast.Node) bool {
+			if id, ok := n.(*ast.Ident); ok && obj != nil && info.Uses[id] == obj {
+				found = true
+			}
+			return !found
+		})
+	}
+	return found
+}
 
 func terminates(list []ast.Stmt) bool {
 	if len(list) == 0 {
@@ -892,14 +1079,35 @@ func (t *translator) wrapRet(v string) string {
 	return "some " + atom(v)
 }
 
-func (t *translator) declare(name, typ string) {
+func (t *translator) declare(name, typ string, obj types.Object) {
 	for i := range t.scope {
 		if t.scope[i].name == name {
 			t.scope[i].typ = typ
+			t.scope[i].obj = obj
 			return
 		}
 	}
-	t.scope = append(t.scope, trLocal{name, typ})
+	t.scope = append(t.scope, trLocal{name, typ, obj})
+}
+
+// checkBinding: the Lean binding an identifier resolves to (the innermost one of that name) must
+// stand for the Go variable the identifier denotes.  Blocks are flattened by the translation, so a
+// variable declared in an inner block that shadows an outer one would otherwise capture later uses
+// of the outer one.
+func (t *translator) checkBinding(id *ast.Ident) {
+	v, ok := t.p.info.Uses[id].(*types.Var)
+	if !ok || v.IsField() {
+		return
+	}
+	name := lid(id.Name)
+	for i := len(t.scope) - 1; i >= 0; i-- {
+		if t.scope[i].name == name {
+			if t.scope[i].obj != nil && t.scope[i].obj != v {
+				t.fail(id, "%s refers to a variable that an inner declaration of the same name shadows in the flattened translation", id.Name)
+			}
+			return
+		}
+	}
 }
 
 func (t *translator) stmts(list []ast.Stmt, end trEnd) string {
@@ -911,8 +1119,28 @@ func (t *translator) stmts(list []ast.Stmt, end trEnd) string {
 	switch x := s.(type) {
 	case *ast.BlockStmt:
 		return t.stmts(append(append([]ast.Stmt{}, x.List...), rest...), end)
+	case *ast.ExprStmt:
+		// log.Printf(…): what the library writes to the process-wide logger is outside the model
+		if c, ok := x.X.(*ast.CallExpr); ok {
+			if sel, ok := c.Fun.(*ast.SelectorExpr); ok {
+				if pk, ok := sel.X.(*ast.Ident); ok {
+					if pn, isPkg := t.p.info.Uses[pk].(*types.PkgName); isPkg && pn.Imported().Path() == "log" && sel.Sel.Name == "Printf" {
+						for _, a := range c.Args {
+							if _, ok := t.pure(a); !ok {
+								t.fail(x, "log.Printf with an argument that can panic or has an effect")
+							}
+						}
+						return cont()
+					}
+				}
+			}
+		}
+		t.fail(x, "expression statement")
 	case *ast.ReturnStmt:
 		if len(x.Results) == 0 {
+			if t.void {
+				return t.wrapRet("()")
+			}
 			t.fail(x, "return without result")
 		}
 		var vals []string
@@ -943,6 +1171,49 @@ func (t *translator) stmts(list []ast.Stmt, end trEnd) string {
 		t.p.info.Types[rhs] = types.TypeAndValue{Type: t.typeOf(x.X)}
 		return t.assign(x, x.X, rhs, cont)
 	case *ast.AssignStmt:
+		if len(x.Lhs) > 1 && len(x.Rhs) == 1 && (x.Tok == token.DEFINE || x.Tok == token.ASSIGN) {
+			// a, b := f(…)  /  a, _ = f(…): the components of the tuple the call yields
+			if _, isCall := x.Rhs[0].(*ast.CallExpr); !isCall {
+				t.fail(x, "multiple assignment from something other than a call")
+			}
+			tup, ok := t.typeOf(x.Rhs[0]).(*types.Tuple)
+			if !ok || tup.Len() != len(x.Lhs) {
+				t.fail(x, "multiple assignment: arity")
+			}
+			return t.bind(x.Rhs[0], func(v string) string {
+				var sb strings.Builder
+				for i, l := range x.Lhs {
+					id, ok := l.(*ast.Ident)
+					if !ok {
+						t.fail(x, "multiple assignment to something other than variables")
+					}
+					if id.Name == "_" {
+						continue
+					}
+					comp := v + strings.Repeat(".2", i)
+					if i < len(x.Lhs)-1 {
+						comp += ".1"
+					}
+					typ := t.leanType(x, tup.At(i).Type())
+					if x.Tok == token.DEFINE && t.p.info.Defs[id] != nil {
+						t.declare(lid(id.Name), typ, t.p.info.Defs[id])
+					} else {
+						t.checkBinding(id)
+						found := false
+						for _, l := range t.scope {
+							if l.name == lid(id.Name) {
+								found = true
+							}
+						}
+						if !found {
+							t.fail(x, "assignment to %s, which is not a local variable of the function", id.Name)
+						}
+					}
+					fmt.Fprintf(&sb, "let %s : %s := %s\n%s", lid(id.Name), typ, comp, t.ind())
+				}
+				return sb.String() + cont()
+			})
+		}
 		if len(x.Lhs) != 1 || len(x.Rhs) != 1 {
 			t.fail(x, "multiple assignment")
 		}
@@ -951,9 +1222,40 @@ func (t *translator) stmts(list []ast.Stmt, end trEnd) string {
 			if !ok {
 				t.fail(x, "define of non-identifier")
 			}
+			if leanFn, call, ok := t.indexCall(x.Rhs[0]); ok {
+				// i := strings.IndexByte(s, c); if i == -1 { return … }; rest
+				var guard *ast.IfStmt
+				if len(rest) > 0 {
+					guard, _ = rest[0].(*ast.IfStmt)
+				}
+				if guard == nil || guard.Init != nil || guard.Else != nil || !terminates(guard.Body.List) {
+					t.fail(x, "the result of a search must be tested right away: if i == -1 { return … }")
+				}
+				cond, okc := guard.Cond.(*ast.BinaryExpr)
+				if ci, ok := cond.X.(*ast.Ident); !okc || !ok || ci.Name != id.Name || cond.Op != token.EQL || !t.isMinus1(cond.Y) {
+					t.fail(x, "the result of a search must be tested right away: if i == -1 { return … }")
+				}
+				obj := t.p.info.Defs[id]
+				if usesObjIn(t.p.info, guard.Body.List, obj) {
+					t.fail(x, "index variable read where the search failed")
+				}
+				return t.bind(call.Args[0], func(str string) string {
+					return t.bind(call.Args[1], func(ch string) string {
+						saveScope := append([]trLocal{}, t.scope...)
+						t.depth++
+						a := t.stmts(guard.Body.List, func() string { t.fail(x, "unreachable"); return "" })
+						t.scope = append([]trLocal{}, saveScope...)
+						t.declare(lid(id.Name), "Nat", obj)
+						b := t.stmts(rest[1:], end)
+						t.depth--
+						t.scope = saveScope
+						return fmt.Sprintf("match %s %s %s with\n%s| none =>\n%s  %s\n%s| some %s =>\n%s  %s", leanFn, atom(str), atom(ch), t.ind(), t.ind(), a, t.ind(), lid(id.Name), t.ind(), b)
+					})
+				})
+			}
 			typ := t.leanType(x, t.typeOf(x.Rhs[0]))
 			return t.bind(x.Rhs[0], func(v string) string {
-				t.declare(lid(id.Name), typ)
+				t.declare(lid(id.Name), typ, t.p.info.Defs[id])
 				return fmt.Sprintf("let %s : %s := %s\n%s%s", lid(id.Name), typ, v, t.ind(), cont())
 			})
 		}
@@ -967,49 +1269,69 @@ func (t *translator) stmts(list []ast.Stmt, end trEnd) string {
 		}
 		return t.assign(x, x.Lhs[0], x.Rhs[0], cont)
 	case *ast.IfStmt:
-		if as, ok := x.Init.(*ast.AssignStmt); ok && as.Tok == token.DEFINE && len(as.Lhs) == 1 && len(as.Rhs) == 1 {
+		if as, ok := x.Init.(*ast.AssignStmt); ok && (as.Tok == token.DEFINE || as.Tok == token.ASSIGN) && len(as.Lhs) == 1 && len(as.Rhs) == 1 {
 			// if i := strings.LastIndexByte(s, c); i != -1 { A } else { B }: the index is an Option here
-			if call, ok := as.Rhs[0].(*ast.CallExpr); ok {
-				if sel, ok := call.Fun.(*ast.SelectorExpr); ok && sel.Sel.Name == "LastIndexByte" && len(call.Args) == 2 {
-					iv := as.Lhs[0].(*ast.Ident)
-					cond, okc := x.Cond.(*ast.BinaryExpr)
-					isMinus1 := func(e ast.Expr) bool {
-						tv, ok := t.p.info.Types[e]
-						return ok && tv.Value != nil && tv.Value.ExactString() == "-1"
-					}
-					if ci, ok := cond.X.(*ast.Ident); !okc || !ok || ci.Name != iv.Name || cond.Op != token.NEQ || !isMinus1(cond.Y) {
-						t.fail(x, "LastIndexByte result used other than in `i != -1`")
-					}
-					if hasReturn(x.Body) || (x.Else != nil && hasReturn(x.Else)) {
-						t.fail(x, "return inside a LastIndexByte branch")
-					}
-					var el []ast.Stmt
-					if eb, ok := x.Else.(*ast.BlockStmt); ok {
-						el = eb.List
-					}
-					vs := t.assigned(&ast.BlockStmt{List: append(append([]ast.Stmt{}, x.Body.List...), el...)}, append(append([]trLocal{}, t.params...), t.scope...))
-					return t.bind(call.Args[0], func(str string) string {
-						return t.bind(call.Args[1], func(ch string) string {
-							saveLoop := t.inLoop
-							t.inLoop = false
-							saveRecv := t.recvMut
-							t.recvMut = ""
-							saveScope := append([]trLocal{}, t.scope...)
-							t.depth++
-							t.declare(lid(iv.Name), "Nat")
-							a := t.stmts(x.Body.List, func() string { return "some " + atom(tuple(vs)) })
-							b := t.stmts(el, func() string { return "some " + atom(tuple(vs)) })
-							t.depth--
-							t.scope = saveScope
-							t.inLoop, t.recvMut = saveLoop, saveRecv
-							pat := tuple(vs)
-							if len(vs) == 0 {
-								pat = "_"
-							}
-							return fmt.Sprintf("(match Bytes.lastIndexByte %s %s with\n%s| some %s =>\n%s  %s\n%s| none =>\n%s  %s).bind fun %s =>\n%s%s", atom(str), atom(ch), t.ind(), lid(iv.Name), t.ind(), a, t.ind(), t.ind(), b, pat, t.ind(), cont())
-						})
-					})
+			if leanFn, call, ok := t.indexCall(as.Rhs[0]); ok {
+				iv, isId := as.Lhs[0].(*ast.Ident)
+				if !isId {
+					t.fail(x, "index stored in something other than a variable")
 				}
+				ivObj := t.p.info.ObjectOf(iv)
+				if as.Tok == token.ASSIGN {
+					// i = …: the variable keeps the new value after the statement, which the scoped binding below
+					// does not model - nothing later may read it
+					if usesObjIn(t.p.info, rest, ivObj) {
+						t.fail(x, "index variable %s is read after the if statement that assigns it", iv.Name)
+					}
+				}
+				cond, okc := x.Cond.(*ast.BinaryExpr)
+				if ci, ok := cond.X.(*ast.Ident); !okc || !ok || ci.Name != iv.Name || cond.Op != token.NEQ || !t.isMinus1(cond.Y) {
+					t.fail(x, "index of a search used other than in `i != -1`")
+				}
+				if hasReturn(x.Body) || (x.Else != nil && hasReturn(x.Else)) {
+					t.fail(x, "return inside a branch on the result of a search")
+				}
+				var el []ast.Stmt
+				if eb, ok := x.Else.(*ast.BlockStmt); ok {
+					el = eb.List
+				} else if x.Else != nil {
+					t.fail(x, "else-if after a search")
+				}
+				if usesObjIn(t.p.info, el, ivObj) {
+					t.fail(x, "index variable read where the search failed")
+				}
+				vs := t.assigned(&ast.BlockStmt{List: append(append([]ast.Stmt{}, x.Body.List...), el...)}, append(append([]trLocal{}, t.params...), t.scope...))
+				for i := range vs {
+					if vs[i].obj == ivObj && ivObj != nil {
+						t.fail(x, "index variable assigned inside the branches")
+					}
+				}
+				return t.bind(call.Args[0], func(str string) string {
+					return t.bind(call.Args[1], func(ch string) string {
+						saveLoop := t.inLoop
+						t.inLoop = false
+						saveRecv := t.recvMut
+						t.recvMut = ""
+						saveScope := append([]trLocal{}, t.scope...)
+						t.depth++
+						t.declare(lid(iv.Name), "Nat", ivObj)
+						a := t.stmts(x.Body.List, func() string { return "some " + atom(tuple(vs)) })
+						t.scope = append([]trLocal{}, saveScope...)
+						b := t.stmts(el, func() string { return "some " + atom(tuple(vs)) })
+						t.depth--
+						t.scope = saveScope
+						t.inLoop, t.recvMut = saveLoop, saveRecv
+						pat := tuple(vs)
+						if len(vs) == 0 {
+							pat = "_"
+						}
+						if leanFn != "Bytes.lastIndexByte" {
+							// Option.elim rather than `match`: a term lemmas can be stated about
+							return fmt.Sprintf("((%s %s %s).elim\n%s  (%s)\n%s  (fun %s =>\n%s  %s)).bind fun %s =>\n%s%s", leanFn, atom(str), atom(ch), t.ind(), b, t.ind(), lid(iv.Name), t.ind(), a, pat, t.ind(), cont())
+						}
+						return fmt.Sprintf("(match %s %s %s with\n%s| some %s =>\n%s  %s\n%s| none =>\n%s  %s).bind fun %s =>\n%s%s", leanFn, atom(str), atom(ch), t.ind(), lid(iv.Name), t.ind(), a, t.ind(), t.ind(), b, pat, t.ind(), cont())
+					})
+				})
 			}
 		}
 		if x.Init != nil {
@@ -1030,9 +1352,11 @@ func (t *translator) stmts(list []ast.Stmt, end trEnd) string {
 		elseT := x.Else != nil && terminates(el)
 		if thenT && (x.Else == nil || elseT) {
 			return t.bind(x.Cond, func(c string) string {
+				saveScope := append([]trLocal{}, t.scope...)
 				t.depth++
 				a := t.stmts(x.Body.List, func() string { t.fail(x, "unreachable"); return "" })
 				t.depth--
+				t.scope = append([]trLocal{}, saveScope...)
 				var b string
 				if x.Else == nil {
 					b = cont()
@@ -1040,6 +1364,7 @@ func (t *translator) stmts(list []ast.Stmt, end trEnd) string {
 					t.depth++
 					b = t.stmts(el, func() string { t.fail(x, "unreachable"); return "" })
 					t.depth--
+					t.scope = saveScope
 					if len(rest) != 0 {
 						t.fail(x, "statements after a terminating if/else")
 					}
@@ -1108,15 +1433,72 @@ func (t *translator) stmts(list []ast.Stmt, end trEnd) string {
 			return fmt.Sprintf("(if %s then\n%s  %s\n%selse\n%s  %s).bind fun %s =>\n%s%s", c, t.ind(), a, t.ind(), t.ind(), b, pat, t.ind(), cont())
 		})
 	case *ast.SwitchStmt:
-		if x.Init != nil || x.Tag == nil {
-			t.fail(x, "switch without tag / with init")
+		if x.Init != nil || x.Tag == nil || !terminates([]ast.Stmt{x}) {
+			// switch init; tag { case a, b: A … default: D }  ==  { init; if tag == a || tag == b { A } else … else { D } }
+			// (no clause may break or fall through; the tag is an expression without effect, evaluated once in Go
+			// and once per comparison here)
+			if x.Tag != nil {
+				if _, ok := t.pure(x.Tag); !ok {
+					if x.Init == nil {
+						t.fail(x, "impure switch tag")
+					}
+				}
+			}
+			bad := false
+			ast.Inspect(x.Body, func(n ast.Node) bool {
+				if b, ok := n.(*ast.BranchStmt); ok && (b.Tok == token.BREAK || b.Tok == token.FALLTHROUGH) {
+					bad = true
+				}
+				return true
+			})
+			if bad {
+				t.fail(x, "break or fallthrough inside a switch")
+			}
+			boolT := types.TypeAndValue{Type: types.Typ[types.Bool]}
+			var chain ast.Stmt
+			var def *ast.CaseClause
+			var clauses []*ast.CaseClause
+			for _, c := range x.Body.List {
+				cc := c.(*ast.CaseClause)
+				if cc.List == nil {
+					def = cc
+				} else {
+					clauses = append(clauses, cc)
+				}
+			}
+			if def != nil {
+				chain = &ast.BlockStmt{List: def.Body}
+			}
+			for i := len(clauses) - 1; i >= 0; i-- {
+				cc := clauses[i]
+				var cond ast.Expr
+				for _, v := range cc.List {
+					var c ast.Expr = v
+					if x.Tag != nil {
+						c = &ast.BinaryExpr{X: x.Tag, Op: token.EQL, Y: v, OpPos: v.Pos()}
+						t.p.info.Types[c] = boolT
+					}
+					if cond == nil {
+						cond = c
+					} else {
+						cond = &ast.BinaryExpr{X: cond, Op: token.LOR, Y: c, OpPos: v.Pos()}
+						t.p.info.Types[cond] = boolT
+					}
+				}
+				chain = &ast.IfStmt{If: cc.Pos(), Cond: cond, Body: &ast.BlockStmt{Lbrace: cc.Pos(), List: cc.Body}, Else: chain}
+			}
+			var list []ast.Stmt
+			if x.Init != nil {
+				list = append(list, x.Init)
+			}
+			if chain != nil {
+				list = append(list, chain)
+			}
+			return t.stmts(append(list, rest...), end)
 		}
 		tag, ok := t.pure(x.Tag)
 		if !ok {
 			t.fail(x, "impure switch tag")
-		}
-		if !terminates([]ast.Stmt{x}) {
-			t.fail(x, "switch that does not return in every clause (or has no default)")
 		}
 		if len(rest) != 0 {
 			t.fail(x, "statements after a terminating switch")
@@ -1164,7 +1546,7 @@ func (t *translator) stmts(list []ast.Stmt, end trEnd) string {
 		if pi, ok := post.X.(*ast.Ident); !ok || pi.Name != iv.Name {
 			t.fail(x, "loop post statement does not increment the loop variable")
 		}
-		if len(t.assigned(x.Body, []trLocal{{iv.Name, "Nat"}})) != 0 {
+		if len(t.assigned(x.Body, []trLocal{{iv.Name, "Nat", nil}})) != 0 {
 			t.fail(x, "loop variable assigned in the body")
 		}
 		lo, okL := t.pure(as.Rhs[0])
@@ -1301,11 +1683,14 @@ func (t *translator) loop(n ast.Node, rangeX ast.Expr, key, val ast.Expr, body *
 	t.nloop++
 	name := fmt.Sprintf("%s_loop%d", t.fn, t.nloop)
 	keyName, valName := "_i", "_x"
+	var keyObj, valObj types.Object
 	if id, ok := key.(*ast.Ident); ok && id.Name != "_" {
 		keyName = lid(id.Name)
+		keyObj = t.p.info.ObjectOf(id)
 	}
 	if id, ok := val.(*ast.Ident); ok && id.Name != "_" {
 		valName = lid(id.Name)
+		valObj = t.p.info.ObjectOf(id)
 	}
 	emit := func(xs string, elemType string) string {
 		// captured: params and the locals that are not loop-carried
@@ -1335,7 +1720,7 @@ func (t *translator) loop(n ast.Node, rangeX ast.Expr, key, val ast.Expr, body *
 		}
 		saveScope, saveDepth, saveSt := t.scope, t.depth, t.stVars
 		t.inLoop, t.stVars, t.depth = true, vs, 0
-		t.scope = append(append([]trLocal{}, outer...), trLocal{keyName, "Nat"}, trLocal{valName, elemType})
+		t.scope = append(append([]trLocal{}, outer...), trLocal{keyName, "Nat", keyObj}, trLocal{valName, elemType, valObj})
 		b := t.stmts(body.List, func() string { return "some (.cont " + atom(tuple(vs)) + ")" })
 		t.inLoop, t.stVars, t.depth, t.scope = false, saveSt, saveDepth, saveScope
 		def := fmt.Sprintf("def %s (E : Env) %s (%s : Nat) (%s : %s) (st : %s) : Option (Step %s %s) :=\n%s  %s\n",
@@ -1370,8 +1755,8 @@ func (t *translator) loop(n ast.Node, rangeX ast.Expr, key, val ast.Expr, body *
 			t.fail(n, "range over a map with a value variable")
 		}
 		kt := t.leanType(n, c.Key())
-		valName = keyName
-		keyName = "_i"
+		valName, valObj = keyName, keyObj
+		keyName, keyObj = "_i", nil
 		return t.bind(rangeX, func(xs string) string { return emit(fmt.Sprintf("(%s.map Prod.fst)", xs), kt) })
 	default:
 		_ = elem
@@ -1391,14 +1776,18 @@ func (t *translator) indIf(b bool) string {
 // ---------------------------------------------------------------- driver
 
 func (p *pkgInfo) translate() string {
-	return p.translateGroup("PP.Tr", "stack/stack.go, stack/bucket.go", trFuncs, true)
+	return p.translateGroup("PP.Tr", "stack/stack.go, stack/bucket.go", trFuncs, true, nil, nil)
 }
 
 func (p *pkgInfo) translateScan() string {
-	return p.translateGroup("PP.TrS", "stack/context.go", trFuncsScan, false)
+	return p.translateGroup("PP.TrS", "stack/context.go, stack/stack.go", trFuncsScan, false, nil, []string{"isFile : Bytes → Bool"})
 }
 
-func (p *pkgInfo) translateGroup(ns, from string, trFuncs [][2]string, withClosure bool) string {
+func (p *pkgInfo) translateHtml() string {
+	return p.translateGroup("PP.TrH", "stack/html.go", trFuncsHtml, false, []string{"PP.Go.PreludeHtml"}, []string{"runtimeVersion : Bytes"})
+}
+
+func (p *pkgInfo) translateGroup(ns, from string, trFuncs [][2]string, withClosure bool, imports, oracles []string) string {
 	funcs := map[string]bool{}
 	for _, f := range trFuncs {
 		funcs[trName(f[0], f[1])] = true
@@ -1470,7 +1859,20 @@ func (p *pkgInfo) translateGroup(ns, from string, trFuncs [][2]string, withClosu
 		}
 	}
 	var sb strings.Builder
-	fmt.Fprintf(&sb, "/- GENERATED by /verif/extract (translate.go) from %s — do not edit. -/\nimport PP.Go.Prelude\nimport PP.Model.Aggregate\nimport PP.Model.Roots\nset_option linter.unusedVariables false\nnamespace %s\nopen PP PP.Go\n\n", from, ns)
+	fmt.Fprintf(&sb, "/- GENERATED by /verif/extract (translate.go) from %s — do not edit. -/\nimport PP.Go.Prelude\nimport PP.Model.Aggregate\nimport PP.Model.Roots\n%sset_option linter.unusedVariables false\nnamespace %s\nopen PP PP.Go%s\n\n", from, func() string {
+		r := ""
+		for _, i := range imports {
+			r += "import " + i + "\n"
+		}
+		return r
+	}(), ns, func() string {
+		for _, i := range imports {
+			if i == "PP.Go.PreludeHtml" {
+				return " PP.Html"
+			}
+		}
+		return ""
+	}())
 	type sig struct{ name, typ string }
 	var sigs []sig
 	var bodies []string
@@ -1505,7 +1907,7 @@ func (p *pkgInfo) translateGroup(ns, from string, trFuncs [][2]string, withClosu
 				for _, fld := range fl.List {
 					ty := t.leanType(fld, t.typeOf(fld.Type))
 					for _, n := range fld.Names {
-						t.params = append(t.params, trLocal{lid(n.Name), ty})
+						t.params = append(t.params, trLocal{lid(n.Name), ty, p.info.Defs[n]})
 						ptypes = append(ptypes, ty)
 					}
 				}
@@ -1513,9 +1915,16 @@ func (p *pkgInfo) translateGroup(ns, from string, trFuncs [][2]string, withClosu
 			add(fd.Recv)
 			add(fd.Type.Params)
 			if fd.Type.Results == nil || len(fd.Type.Results.List) == 0 {
-				t.fail(fd, "function without result")
+				if !mutating[name] {
+					t.fail(fd, "function without result that does not assign through its receiver")
+				}
+				t.void = true
+				fd.Type.Results = &ast.FieldList{}
 			}
 			var rts []string
+			if t.void {
+				rts = []string{"Unit"}
+			}
 			for _, rf := range fd.Type.Results.List {
 				n := len(rf.Names)
 				if n == 0 {
@@ -1533,10 +1942,29 @@ func (p *pkgInfo) translateGroup(ns, from string, trFuncs [][2]string, withClosu
 			if mutating[name] {
 				rn := fd.Recv.List[0].Names[0].Name
 				t.recvMut = lid(rn)
-				t.scope = append(t.scope, trLocal{lid(rn), t.params[0].typ})
+				t.scope = append(t.scope, trLocal{lid(rn), t.params[0].typ, t.params[0].obj})
 				t.ret = "(" + t.params[0].typ + " × " + t.ret + ")"
 			}
-			body := t.stmts(fd.Body.List, func() string { t.fail(fd, "function can fall off its end"); return "" })
+			t.submatch = map[types.Object]bool{}
+			ast.Inspect(fd.Body, func(n ast.Node) bool {
+				if as, ok := n.(*ast.AssignStmt); ok && len(as.Lhs) == 1 && len(as.Rhs) == 1 {
+					if c, ok := as.Rhs[0].(*ast.CallExpr); ok {
+						if sel, ok := c.Fun.(*ast.SelectorExpr); ok && strings.HasPrefix(sel.Sel.Name, "Find") {
+							if id, ok := as.Lhs[0].(*ast.Ident); ok {
+								t.submatch[p.info.ObjectOf(id)] = true
+							}
+						}
+					}
+				}
+				return true
+			})
+			body := t.stmts(fd.Body.List, func() string {
+				if t.void {
+					return t.wrapRet("()")
+				}
+				t.fail(fd, "function can fall off its end")
+				return ""
+			})
 			var bind []string
 			for _, pr := range t.params {
 				bind = append(bind, fmt.Sprintf("(%s : %s)", pr.name, pr.typ))
@@ -1609,7 +2037,7 @@ func (p *pkgInfo) translateGroup(ns, from string, trFuncs [][2]string, withClosu
 				t.fail(as, "the sort closure does not start with l := bs[i]; r := bs[j]")
 			}
 			names = append(names, as.Lhs[0].(*ast.Ident).Name)
-			t.params = append(t.params, trLocal{names[k], "Bkt"})
+			t.params = append(t.params, trLocal{names[k], "Bkt", nil})
 		}
 		body := t.stmts(lit.Body.List[2:], func() string { t.fail(lit, "closure can fall off its end"); return "" })
 		pos := p.fset.Position(lit.Pos())
@@ -1628,8 +2056,8 @@ func (p *pkgInfo) translateGroup(ns, from string, trFuncs [][2]string, withClosu
 		return sb.String()
 	}
 	sb.WriteString("/-- the translated functions, as callees, and the oracles of the environment -/\nstructure Env where\n")
-	if !withClosure {
-		sb.WriteString("  isFile : Bytes → Bool\n")
+	for _, o := range oracles {
+		sb.WriteString("  " + o + "\n")
 	}
 	for _, s := range sigs {
 		fmt.Fprintf(&sb, "  %s : %s\n", s.name, s.typ)
